@@ -578,10 +578,17 @@ class DimensionValue(Value):
             item = seq[0]
 
             sign, v, d = self.__reUnNumDim.findall(normalize(item.value))[0]
-            if '.' in v:
-                val = float(sign + v)
-            else:
-                val = int(sign + v)
+            try:
+                if '.' in v:
+                    val = float(sign + v)
+                else:
+                    val = int(sign + v)
+                if val in (float('inf'), float('-inf')):
+                    raise OverflowError('number too large')
+            except (ValueError, OverflowError) as e:
+                self.wellformed = False
+                self._log.error(f'DimensionValue: Number out of range: {e}')
+                return
 
             dim = None
             if d:
